@@ -157,8 +157,15 @@ func c12Eval(c *fw.Ctx, k c12Case) (sig, desc string, nontrivial bool) {
 	(&BFile{L: l, Rings: r1}).Write(filepath.Join(root, "mi", "web", "a.wsp"))
 	(&BFile{L: l, Rings: r2}).Write(filepath.Join(root, "mi-b", "web", "a.wsp"))
 	(&BFile{L: l, Rings: r2}).Write(filepath.Join(root, "mi", "web-01", "a.wsp"))
+	// names whose first path component starts with a dot; a decoy without the dot holds other data
+	(&BFile{L: l, Rings: r1}).Write(filepath.Join(root, ".hid", "a.wsp"))
+	(&BFile{L: l, Rings: r2}).Write(filepath.Join(root, "hid", "a.wsp"))
+	(&BFile{L: l, Rings: r1}).Write(filepath.Join(root, ".hid", ".b.wsp"))
+	(&BFile{L: l, Rings: r2}).Write(filepath.Join(root, ".hid", "b.wsp"))
 	file, glob, item, srcpat := "a.wsp", "g/*.wsp", "it/*", "*.wsp"
 	switch k.Target {
+	case "hidden-name":
+		file, glob = ".hid/a.wsp", ".hid/.*.wsp"
 	case "missing":
 		file, glob, item, srcpat = "nope.wsp", "g/nope.wsp", "it/x", "z*.wsp"
 	case "nomatch":
@@ -248,7 +255,7 @@ func c12Eval(c *fw.Ctx, k c12Case) (sig, desc string, nontrivial bool) {
 		}
 		o.es += firstLine(pn)
 		if strings.HasPrefix(k.Cmd, "copy") {
-			for _, f := range []string{"a.wsp", "g/a.wsp", "g/b.wsp", "g/c d+e&f.wsp", "sp ace%41#.wsp", "big/a.wsp", "g/x+y&z=1.wsp", "g/x y.wsp", "ml/web/a.wsp", "ml/web-01/a.wsp", "ml/web/b.wsp", "odd/mr.wsp"} {
+			for _, f := range []string{"a.wsp", "g/a.wsp", "g/b.wsp", "g/c d+e&f.wsp", "sp ace%41#.wsp", "big/a.wsp", "g/x+y&z=1.wsp", "g/x y.wsp", "ml/web/a.wsp", "ml/web-01/a.wsp", "ml/web/b.wsp", "odd/mr.wsp", ".hid/a.wsp", ".hid/.b.wsp"} {
 				b, _ := os.ReadFile(filepath.Join(ddir, f))
 				o.dest = append(o.dest, b...)
 			}
@@ -332,7 +339,7 @@ func runC12(c *fw.Ctx) {
 				}
 			}
 			for _, cmd := range []string{"view", "view-raw", "sum", "diff", "diff-glob", "copy", "copy-glob", "sum-diff"} {
-				for _, target := range []string{"existing", "missing", "nomatch", "odd-name", "odd-pattern", "multi-level", "odd-header"} {
+				for _, target := range []string{"existing", "missing", "nomatch", "odd-name", "odd-pattern", "multi-level", "odd-header", "hidden-name"} {
 					for ai, arch := range []int{-1, 0, 1, 2} {
 						for wi, w := range wins {
 							idx++
